@@ -233,7 +233,7 @@ func altCase(s *fontSpec, e *expanded, a *altChoice) (err error, labels []string
 	data, trace := ref.Write(L, a.options())
 	fail := func(format string, x ...any) error {
 		return fmt.Errorf("%s\n  alternative: %+v\n  writer choices: %s\n  bytes: %s", fmt.Sprintf(format, x...), *a, trace,
-			dump(fmt.Sprintf("c13-alt-%016x.cff", stats.Hash(data)), data))
+			dump("c13-alternative-last-failure.cff", data))
 	}
 	// the model must agree with itself before it may judge the library
 	parsed, perr := ref.Parse(data)
